@@ -145,6 +145,30 @@ def check(ctx):
                     "key type = --crt-signature-alg or DEFAULT_CRT_KEY_TYPE", ["tacd::init", "key-type"])
         ctx.require(R4, "crt-digest" in opts(dg) and any(x.get("item") == "tacd::DEFAULT_CRT_DIGEST" for x in dg.consts) and "crt-signature-alg" not in opts(dg), c_.where(),
                     "digest = --crt-digest or DEFAULT_CRT_DIGEST", ["tacd::init", "digest"])
+    # tacd(8): when both values come from standard input, the domain is the first line and the extension the second — the value of
+    # "domain" is obtained before the value of "acme-ext" on every path of init
+    gcs = [(c_, {x.get("str") for k_ in range(len(c_.args)) for x in arg_origins(c_, k_).consts if "str" in x}) for c_ in ini.calls_to("tacd::get_acme_value")]
+    dom_calls = [c_ for c_, o_ in gcs if "domain" in o_]
+    ext_calls = [c_ for c_, o_ in gcs if "acme-ext" in o_]
+    if dom_calls and ext_calls:
+        ok_, hit_ = unreachable_without(ini, [c_.bb for c_ in ext_calls], removed_nodes=[c_.bb for c_ in dom_calls])
+        ctx.require(R4, ok_, ext_calls[0].where(), "the domain is read before the extension (order of the two lines on standard input)", ["tacd::init", "stdin-order"])
+    # a value may be given inline OR by file, never both, and the two VALUES are independent: `--domain-file` with `--acme-ext-file` is
+    # a documented way to start tacd. The clap table: an option conflicts only with the other spelling of the same value
+    mains = [b_ for k_, b_ in prog.bodies.items() if k_ in ("tacd::main", "tacd::inner_main") or k_.startswith("tacd::main::")]
+    pairs = set()
+    for mb_ in mains:
+        for c_ in mb_.calls:
+            if c_.bb in mb_.live_blocks() and (c_.name or "").endswith("Arg::conflicts_with") and len(c_.args) > 1:
+                tgt_ = {x.get("str") for x in arg_origins(c_, 1).consts if "str" in x}
+                me_ = {x.get("str") for z in arg_origins(c_, 0).calls if (z.name or "").endswith("Arg::new") for x in arg_origins(z, 0).consts if "str" in x}
+                for a_ in me_:
+                    for t_ in tgt_:
+                        pairs.add((a_, t_))
+    VALUE_OPTS = {"domain": "domain-file", "domain-file": "domain", "acme-ext": "acme-ext-file", "acme-ext-file": "acme-ext"}
+    for a_, t_ in sorted(pairs):
+        if a_ in VALUE_OPTS:
+            ctx.require(R4, t_ == VALUE_OPTS[a_], "tacd/src/main.rs", "--%s conflicts only with --%s (declared: --%s)" % (a_, VALUE_OPTS[a_], t_), ["tacd::main", "conflicts", a_])
     gav = prog.must_body("tacd::get_acme_value")
     # evaluation-first: get_acme_value interpreted for the three sources of a value (option given / file option given / neither):
     # what it returns and what it reads — the inline value; the whole named file, trimmed; ONE line of the shared stdin handle, trimmed
